@@ -102,6 +102,11 @@ CHECKS['C15'] = dict(
     text='Tens of thousands of seeded mutants of all repo fixtures and generated programs plus boundary inputs (nesting 256 deep for every recursive construct, 254-300 locals/parameters/arguments/captures, 65535-70000 constants, megabyte tokens, 66000 lines, oversized jumps) are fed to Vm::run on debug (compiler debug assertions count as panics) and release. A crash, abort, signal or timeout before the compile hook reports a finished module is a front-end violation; a compile-error status must come with a diagnostic and empty stdout. REPL survival after bad lines is covered by C19.',
     note='Inputs that are not valid UTF-8 never reach the front end (the runtime refuses to read them); nesting beyond 256 is outside the stated bound. Known finding D26 (u16 line numbers) is keyed on its boundary input.', ref='DESIGN.md §2 C15')
 
+CHECKS['C16'] = dict(
+    technique='outcome monitor (crash classifier over exit status, panic text, signals, sanitizer reports, step budget, in-VM stack monitor) over a native exerciser derived from the source, hostile program families, all corpora and accepted mutants, on debug and release (+ASan thorough)',
+    text='Every native discovered by scanning NativeMetaBuilder declarations is called with 0..arity+1 arguments drawn from a 37-value zoo as plain call, bound value, .call and callback; 228 hostile families (non-callables, wrong receivers, raise of non-errors, errors in catch and str(), built-in subclassing, recursion to the frame limit through 18 call shapes in and out of try and fibers, cyclic str, limits, comparators, mutation during iteration, channel and exit misuse); every generated program of every kind; thousands of mutants the front end accepts. The only allowed endings are normal exit, exit code, reported deadlock or a language error with a traceback.',
+    note='A crash is attributed to a known finding only by its family label plus panic site (known_findings.json: D5, D9, D12, D20, D25, D27, D37, D39); any other crash is a violation. io/env natives run in a scratch working directory with empty stdin.', ref='DESIGN.md §2 C16')
+
 PENDING = {}
 
 
